@@ -165,6 +165,10 @@ func runFreeze(c Freeze) (fail *kit.Failure, ev map[string]int, hist []string) {
 			ev["excluded:"+why]++
 			return nil
 		}
+		if _, why := prog.GuardF35(p.d, st); why != "" && !kit.NoExclusions() {
+			ev["excluded:"+why]++
+			return nil
+		}
 		desc, err := prog.ApplyEdit(p.d, st)
 		logf("%s: %s", name(i), desc)
 		if err != nil {
